@@ -506,3 +506,73 @@ def d4(db, rep):
                           "%d %s names in encoding order" % (len(names), pre), "AVX register names out of order: %s" % names)
     if n < 5:
         raise AnalysisBroken("only %d register-name tables found" % n)
+    d4b_regname_domain(db, rep)
+
+
+def d4b_regname_domain(db, rep, rule="D4b-REGNAME-DOMAIN"):
+    """The name tables being in encoding order (D4) says nothing about WHICH registers reach them: the helpers select the
+    table entry behind a range test on the register number.  Each helper is evaluated (lib/funceval.py) for EVERY register of
+    its bank, taken from the register enumerations: exactly one return statement must be reached, and it must name that very
+    register - the table entry with the register's number within the bank, or (VEX.128 form of the AVX helper) the SSE helper
+    called with the %xmm register of the same number.  A range test one short (`n >= X86_YMM15 - X86_YMM0`) sends the last
+    register of the bank to the fall-back text ("ERROR"): the listing of a program that keeps 16 vector values live does not
+    assemble while its machine code is unchanged."""
+    import re
+    from funceval import returns, _ev, Unknown
+    banks = {"XMM": {}, "YMM": {}, "MM": {}}
+    for t in db.tus.values():
+        for k, v in t.enums.items():
+            m = re.match(r"^X86_(XMM|YMM|MM)(\d+)$", k)
+            if m:
+                banks[m.group(1)][int(m.group(2))] = v
+    if len(banks["XMM"]) != 16 or len(banks["YMM"]) != 16 or len(banks["MM"]) != 8:
+        raise AnalysisBroken("register enumerations: %s" % {k: len(v) for k, v in banks.items()})
+    V128, V256 = db.enum("ORC_X86_AVX_VEX128_PREFIX"), db.enum("ORC_X86_AVX_VEX256_PREFIX")
+    cases = [("orc_x86_get_regname_sse", "orcsse", "XMM", [None], "xmm"), ("orc_x86_get_regname_mmx", "orcmmx", "MM", [None], "mm"),
+             ("orc_x86_get_regname_avx", "orcavx", "YMM", [V256, V128], "ymm")]
+    n = 0
+    for fname, tub, bank, prefixes, pre in cases:
+        tu = db.tu(tub)
+        f = tu.fn.get(fname)
+        if f is None or f.body is None:
+            raise AnalysisBroken("%s not found in %s.c" % (fname, tub))
+        rep.saw(f)
+        tables = {}
+        for g in tu.globals:
+            if g.get("in") == fname and "init" in g and "list" in g["init"]:
+                tables[g["name"]] = [x.get("s") for x in g["init"]["list"] if isinstance(x, dict)]
+        for pf in prefixes:
+            bad = []
+            for num, r in sorted(banks[bank].items()):
+                hits = []
+                returns(tu, f, [r] + ([pf] if pf is not None else []), on_return=lambda e, env: hits.append((e, env)))
+                n += 1
+                got = None
+                if len(hits) == 1 and hits[0][0].c and hits[0][0].c[0] is not None:
+                    e, env = strip_casts(hits[0][0].c[0]), hits[0][1]
+                    try:
+                        if e.k == "ArraySubscriptExpr":
+                            tb = strip_casts(e.c[0])
+                            ix = _ev(tu, f, e.c[1], env, {}, 0)
+                            names = tables.get(tb.name if tb is not None and tb.k == "DeclRefExpr" else None)
+                            if names is not None and 0 <= ix < len(names):
+                                got = names[ix]
+                        elif e.k == "CallExpr" and e.name == "orc_x86_get_regname_sse" and e.args():
+                            a = _ev(tu, f, e.args()[0], env, {}, 0)
+                            back = [k for k, v in banks["XMM"].items() if v == a]
+                            got = "xmm%d" % back[0] if back else None
+                        elif e.k == "StringLiteral":
+                            got = e.get("s")
+                    except Unknown:
+                        got = None
+                want = ("xmm%d" if pf == V128 and pf is not None else pre + "%d") % num
+                if got != want:
+                    bad.append("%s%d -> %s" % (bank.lower(), num, got if got is not None else "%d return statements reached / not a table entry" % len(hits)))
+            rep.check(not bad, rule, "orc/%s.c::%s" % (tub, fname), "%s%s" % (fname, "" if pf is None else ":prefix=%d" % pf),
+                      "every register of the %%%s bank is printed under its own name" % bank.lower(),
+                      "%s does not name every register of the %%%s bank%s (%s): the listing prints another text for that register than the "
+                      "encoder emits (the fall-back \"ERROR\" does not assemble)" % (fname, bank.lower(), "" if pf is None else " with prefix %d" % pf, "; ".join(bad[:4])),
+                      line=f.line)
+    if n < 16 + 8 + 32:
+        raise AnalysisBroken("only %d register-name evaluations" % n)
+    return n
